@@ -89,7 +89,7 @@ def _decorate(rng, e, p=0.5):
     return e
 
 
-def gen_family(rng, n_units=None, n_stores=None, allow_bad=False, mix_dimless=False):
+def gen_family(rng, n_units=None, n_stores=None, allow_bad=False, mix_dimless=False, recipes=None, with_base=None):
     """Units come in clusters of equal dimension (different spellings, prefixes, multipliers, powers of one another),
     so that most queried pairs are convertible with a factor different from one."""
     ns = n_stores or rng.choice([1, 1, 2, 2, 3])
@@ -100,9 +100,9 @@ def gen_family(rng, n_units=None, n_stores=None, allow_bad=False, mix_dimless=Fa
     names = rng.sample(NAMES, min(n, len(NAMES)))
     n_clusters = rng.choice([2, 2, 3])
     clusters = []
-    for recipe in rng.sample(RECIPES, n_clusters):
+    for recipe in rng.sample(recipes or RECIPES, n_clusters):
         clusters.append({'recipe': recipe, 'members': []})   # members: (store, name) of this dimension
-    if rng.random() < 0.35:
+    if (rng.random() < 0.35) if with_base is None else with_base:
         clusters.append({'recipe': None, 'members': []})      # a new base unit and its derivatives
     defs = []
     for name in names:
@@ -189,13 +189,14 @@ def close(a, b, rel=1e-9):
 
 
 # ------------------------------------------------------------------------------------------ implementation side
-def build_impl(fam):
-    """Create the stores and define the units on the real code. Returns (stores, outcomes)."""
+def build_impl(fam, stores=None):
+    """Create the stores (unless given) and define the units on the real code. Returns (stores, outcomes)."""
     from cellmlmanip.parser import Parser
     from cellmlmanip.units import UnitStore
-    stores = []
-    for s in fam['stores']:
-        stores.append(UnitStore() if s is None else UnitStore(stores[s]))
+    if stores is None:
+        stores = []
+        for s in fam['stores']:
+            stores.append(UnitStore() if s is None else UnitStore(stores[s]))
     outcomes = []
     for d in fam['defs']:
         st = stores[d['store']]
